@@ -1,5 +1,5 @@
 (* C15 command table: a stateful world; every command answers with the canonical state of the whole world.
-   reset | create L | adduid K ISUID CID INFO PRIM T | recert K ISUID CID INFO PRIM T | certify BY K ISUID CID EXP T
+   reset | create L | adduid K ISUID CID INFO PRIM T | recert K ISUID CID INFO PRIM T | certify BY K ISUID CID EXP T | certkey BY K EXP T
    | revuid K ISUID CID T | addsub K L CANSIGN FLAGS T | revsub K L T | revkey K T | revoker K BY T | deluid K CID
    | protect K | unlock K | lock K | copy K | reimport K | publish K | state | old <command ...> (pre-repair step)
    INFO = comma separated integers ("-" = empty), EXP = n|0|1 *)
@@ -34,6 +34,7 @@ let op_of = function
   | ["adduid"; k; isu; c; info; prim; t] -> OAddUid (ni k, bo isu, [zi c], lz info, bo prim, zi t)
   | ["recert"; k; isu; c; info; prim; t] -> ORecertify (ni k, bo isu, [zi c], lz info, bo prim, zi t)
   | ["certify"; b; k; isu; c; e; t] -> OCertify (ni b, ni k, bo isu, [zi c], exp_of e, zi t)
+  | ["certkey"; b; k; e; t] -> OCertifyKey (ni b, ni k, exp_of e, zi t)
   | ["revuid"; k; isu; c; t] -> ORevokeUid (ni k, bo isu, [zi c], zi t)
   | ["addsub"; k; l; cs; fl; t] -> OAddSubkey (ni k, zi l, bo cs, zi fl, zi t)
   | ["revsub"; k; l; t] -> ORevokeSubkey (ni k, zi l, zi t)
@@ -53,7 +54,7 @@ let () = run_table [
   "state", (fun _ -> world_s !w);
   "old", (fun args -> w := apply_prefix !w (op_of args); world_s !w);
   "create", (fun a -> step ("create" :: a)); "adduid", (fun a -> step ("adduid" :: a)); "recert", (fun a -> step ("recert" :: a));
-  "certify", (fun a -> step ("certify" :: a)); "revuid", (fun a -> step ("revuid" :: a)); "addsub", (fun a -> step ("addsub" :: a));
+  "certify", (fun a -> step ("certify" :: a)); "certkey", (fun a -> step ("certkey" :: a)); "revuid", (fun a -> step ("revuid" :: a)); "addsub", (fun a -> step ("addsub" :: a));
   "revsub", (fun a -> step ("revsub" :: a)); "revkey", (fun a -> step ("revkey" :: a)); "revoker", (fun a -> step ("revoker" :: a));
   "deluid", (fun a -> step ("deluid" :: a)); "protect", (fun a -> step ("protect" :: a)); "unlock", (fun a -> step ("unlock" :: a));
   "lock", (fun a -> step ("lock" :: a)); "copy", (fun a -> step ("copy" :: a)); "reimport", (fun a -> step ("reimport" :: a));
